@@ -1,6 +1,6 @@
 import H264.C14
 import H264.Mono
-import H264.BitsProof
+import H264.BitsProofC14
 /-! # C14 — more_rbsp_data / trailing-bits checks are exact at every bit position
 
 A position in an RBSP is the list of bits still to be read (`Src.bits`); `fin = eof` is the complete RBSP.
